@@ -174,3 +174,20 @@ Proof.
     split; [intros j; apply enum_id_ok|]. split; reflexivity.
   - split; [vm_compute; reflexivity|discriminate].
 Qed.
+
+(* The second tie: BatchConfig.EnsureValid and ShutterApp.checkConfig, regenerated from the
+   source on this run (Generated/AppConsts.v), decide exactly what the model's do. A change of
+   the comparison (the signed cast repaired in the fix: commit, a dropped test, <= for <)
+   breaks this obligation before any history is generated. *)
+From Verif Require Import Generated.AppConsts Proofs.AppConsts.
+Theorem C11_translated_config_checks_agree :
+  (forall c, ensure_valid c =
+             gen_ensure_valid (Z.of_nat (List.length (c_keypers c))) (Z.of_N (c_threshold c)) &&
+             (Z.of_nat (List.length (c_keypers c)) <? two63)) /\
+  (forall s c lc, last_opt (configs s) = Some lc ->
+             Z.of_nat (List.length (c_keypers c)) < two63 ->
+             check_config s c =
+             Some (gen_check_config (Z.of_nat (List.length (c_keypers c))) (Z.of_N (c_threshold c))
+                                    (Z.of_N (c_act c)) (Z.of_N (c_index c)) (Z.of_N (c_act lc)) (Z.of_N (c_index lc)))).
+Proof. split; [exact ensure_valid_agrees|exact check_config_agrees]. Qed.
+Print Assumptions C11_translated_config_checks_agree.
